@@ -9,7 +9,7 @@ closure update (R9.2) and that writer and readers agree on argument roles
 from sa.core import rule, AnalysisError
 from sa import cxx
 from sa.cxx import term, inner, strip
-from rules._util_c09c04 import (Sym, uncast, uncast_v, is_int as _is_int, truth,
+from rules._util_c09c04 import (Sym, Item, uncast, uncast_v, is_int as _is_int, truth,
                                 subterms, pure_term, walk_sem, calls_to,
                                 desugared, canon_type, ASSIGN_OPS, INCDEC)
 
@@ -85,11 +85,39 @@ EXPLANATION += (
     "node's own lists. A path condition built from a reassigned flag or an "
     "unresolved call is an analysis error.")
 
+EXPLANATION += (
+    " Whole-range obligation of R9.1 (S2/S3): the paper argument quantifies over "
+    "every row i that reaches src and over every word of a row, so each index "
+    "loop is matched as the range [first, bound): first must be the constant 0 "
+    "and bound the matrix dimension (num_nodes_ / adj_.size() for rows, size_ / "
+    "adj_[r].size() for words; `i <= x` is read as `i < x + 1`, `i != B` with "
+    "unit stride as `i < B`). A first index or bound computed from an argument "
+    "(a `first_row` hint, src's word), from a constant other than 0, or from "
+    "auxiliary state is a violation whatever the callers pass. Fields of the "
+    "analyzer other than adj_, num_nodes_, size_ are auxiliary: statements that "
+    "only write them are ignored, further parameters of add_connection have no "
+    "role (R9.3 reads the first two arguments), but wherever the matched loops, "
+    "guard or merge mention an auxiliary field, a value copied from one "
+    "(`const int top = top_[dst]`) or a further parameter, the match fails as a "
+    "violation. A first index that contains a call, a loop index changed in the "
+    "body, a copy of *matrix* state used as a bound, or an auxiliary field of "
+    "pointer / reference / iterator type (could alias the rows) is an "
+    "ANALYSIS-ERROR.")
+ASSUMPTIONS += [
+    "R9.1 whole-range: a loop bound kept in an auxiliary field is reported even "
+    "if the program happens to keep it equal to size_ / num_nodes_; that "
+    "equality is an invariant over the history of calls and is not decided",
+]
+
 RC = "pytype/typegraph/reachable.cc"
 W64 = {"long", "long long", "std::int64_t", "int64_t", "unsigned long",
        "unsigned long long", "std::uint64_t", "uint64_t", "__int64_t",
        "__uint64_t"}
 RA = "ReachabilityAnalyzer"
+# the state the paper argument speaks about; every other field of the class is
+# auxiliary: it may be written freely, but nothing the schema matches (loop
+# ranges, guard, merged cells) may be computed from it
+MATRIX = {RA + "::adj_", RA + "::num_nodes_", RA + "::size_"}
 
 
 def _bucket(t, x):
@@ -119,7 +147,7 @@ def _rooted(t):
   """The term designates (part of) a ReachabilityAnalyzer field."""
   while isinstance(t, tuple) and t:
     if t[0] == "field":
-      return str(t[1]).startswith(RA + "::")
+      return str(t[1]) in MATRIX
     if t[0] in ("index", "data", "*", "cast") or (t[0] == "&" and len(t) == 2):
       t = t[2] if t[0] == "cast" else t[1]
       continue
@@ -151,6 +179,95 @@ def _term_writes(t):
   return False
 
 
+class LoopItem(Item):
+  """An index loop of the normal form with its first index (`lo`)."""
+  __slots__ = ("lo",)
+
+
+def _plus1(x):
+  """x + 1 (the exclusive bound of `i <= x`); `(y - 1) + 1` is y: the matrix
+  is never empty when add_connection runs (its arguments are node ids)."""
+  x = uncast(x)
+  if isinstance(x, tuple) and len(x) == 3 and x[0] == "-" and _is_int(x[2], 1):
+    return uncast(x[1])
+  return ("+", x, ("int", 1, "int"))
+
+
+def _reads_aux(t):
+  return any(s and s[0] == "field" and str(s[1]).startswith(RA + "::")
+             and s[1] not in MATRIX for s in subterms(t))
+
+
+class Sym9(Sym):
+  """Sym whose index loops carry their whole range [lo, bound): `_for` keeps
+  the start expression instead of refusing a start other than 0, reads
+  `i <= x` as `i < x + 1` and `i != B` (unit stride) as `i < B`; a value local
+  that holds a copy of *auxiliary* analyzer state (`const int top = top_[d];`)
+  becomes the term ("snapshot", name, definition) - it is not matrix state, so
+  wherever the schema meets it the match fails as a violation instead of a
+  refusal (copies of matrix state stay an AnalysisError: they may be stale)."""
+
+  def __init__(self, ix, inline_ok):
+    super().__init__(ix, inline_ok)
+    self.snap = {}
+
+  def _decl(self, s, env, fn):
+    out = super()._decl(s, env, fn)
+    for it in out:
+      if it.kind == "decl" and it.var is not None and it.var[2] in self.opaque \
+          and it.term is not None and _reads_aux(it.term):
+        self.snap[it.var[2]] = it.term
+    return out
+
+  def term(self, e, env=None):
+    if e and e.get("kind") == "DeclRefExpr":
+      did = (e.get("referencedDecl") or {}).get("id")
+      if did in self.snap and did not in (env or {}):
+        return ("snapshot", self.opaque[did], self.snap[did])
+    return super().term(e, env)
+
+  def _for(self, s, env, fn):
+    init, _, cond, inc, body = (inner(s) + [None] * 5)[:5]
+    if not init or init.get("kind") != "DeclStmt" or len(inner(init)) != 1:
+      raise AnalysisError("for-loop init outside the accepted idiom")
+    v = inner(init)[0]
+    if v.get("kind") != "VarDecl" or not inner(v):
+      raise AnalysisError("for-loop without an initialised index variable")
+    lo = uncast(self.term(inner(v)[-1], env))
+    var = ("var", v.get("name"), v["id"])
+    c = self.term(cond, env)
+    if not (isinstance(c, tuple) and len(c) == 3 and c[0] in ("<", "<=", "!=")
+            and uncast(c[1]) == var):
+      raise AnalysisError(f"for-loop condition outside the accepted idiom: {c}")
+    i = self.term(inc, env)
+    if not (isinstance(i, tuple) and (
+        (i[0] in ("post++", "pre++") and uncast(i[1]) == var) or
+        (i[0] == "+=" and uncast(i[1]) == var and _is_int(i[2], 1)))):
+      raise AnalysisError(f"for-loop increment outside the accepted idiom: {i}")
+    if body is None:
+      raise AnalysisError("for-loop without body")
+    bound = uncast(c[2])
+    if c[0] == "<=":
+      bound = _plus1(bound)
+    elif c[0] == "!=" and not _is_int(lo, 0):
+      raise AnalysisError("for-loop `i != B` that does not start at 0")
+    if any(x == var for x in subterms(bound)) or any(x == var for x in subterms(lo)):
+      raise AnalysisError("for-loop range mentions its own index")
+    items = self._loop_body(body, env, fn)
+    for n in cxx.walk(body):
+      if n.get("kind") in ("BinaryOperator", "CompoundAssignOperator", "UnaryOperator") \
+          and (n.get("opcode") in ("++", "--") or (
+              n.get("opcode", "").endswith("=") and
+              n.get("opcode") not in ("==", "!=", "<=", ">="))):
+        l = strip(inner(n)[0])
+        if l is not None and l.get("kind") == "DeclRefExpr" and \
+            (l.get("referencedDecl") or {}).get("id") == v["id"]:
+          raise AnalysisError("for-loop index is changed inside the body")
+    it = LoopItem("loop", s, var=var, bound=bound, body=items)
+    it.lo = lo
+    return it
+
+
 class Schema:
   def __init__(self, ctx):
     self.ctx = ctx
@@ -162,7 +279,13 @@ class Schema:
         else ix.find("ReachabilityAnalyzer::add_connection")[0]
     self.is_reach = ix.find("ReachabilityAnalyzer::is_reachable")[0]
     self.F = lambda n: ("field", f"ReachabilityAnalyzer::{n}", ("this",))
-    self.sym = Sym(ix, self.inline_ok)
+    self.sym = Sym9(ix, self.inline_ok)
+    for fq, ty in sorted(ix.field_type.items()):
+      if fq.startswith(RA + "::") and fq not in MATRIX and \
+          ("*" in ty or "&" in ty or "iterator" in ty or "span" in ty):
+        raise AnalysisError(f"auxiliary field {fq} of type {ty} may alias the "
+                            "matrix storage; writes through it cannot be told "
+                            "from matrix writes")
 
   def inline_ok(self, fn):
     if fn.kind in ("CXXConstructorDecl", "CXXDestructorDecl"):
@@ -193,14 +316,43 @@ class Schema:
 
   def all_rows(self, bound):
     """Loop bound that covers every row of the matrix."""
-    return bound == self.F("num_nodes_") or bound == ("count", self.F("adj_"))
+    return bound == self.F("num_nodes_") or bound == ("count", self.F("adj_")) \
+        or bound == ("mcall", "size", self.F("adj_"))
+
+  def all_buckets(self, bound):
+    """Loop bound that covers every 64-bit word of a row (S2 gives every row
+    exactly size_ words)."""
+    if bound == self.F("size_"):
+      return True
+    row = None
+    if isinstance(bound, tuple) and len(bound) == 2 and bound[0] == "count":
+      row = bound[1]
+    elif isinstance(bound, tuple) and len(bound) == 3 and bound[:2] == ("mcall", "size"):
+      row = bound[2]
+    return isinstance(row, tuple) and len(row) == 3 and row[0] == "index" and \
+        row[1] == self.F("adj_") and pure_term(row[2])
+
+  def from_zero(self, loop, what):
+    """The loop starts at index 0.  A start that is a constant other than 0
+    or computed from arguments / fields / locals skips rows or words: False.
+    A start that cannot be evaluated (a call) is an AnalysisError."""
+    lo = getattr(loop, "lo", None)
+    if lo is None or _is_int(lo, 0):
+      return True
+    if isinstance(lo, tuple) and len(lo) == 3 and lo[0] == "*" and \
+        (_is_int(lo[1], 0) or _is_int(lo[2], 0)) and pure_term(lo):
+      return True
+    if not pure_term(lo) or any(x and x[0] in ("?", "mcall", "call", "opcall")
+                                for x in subterms(lo)):
+      raise AnalysisError(f"{what}: the first index {lo} cannot be evaluated")
+    return False
 
 
 def _touches_matrix(ix, s):
   if s is None:
     return False
   for ev in cxx.events(ix, s, {}):
-    if ev.kind in ("write", "addr") and ev.what.startswith("ReachabilityAnalyzer::"):
+    if ev.kind in ("write", "addr") and ev.what in MATRIX:
       return True
   return False
 
@@ -270,10 +422,11 @@ def r9_1(ctx):
       want = ("mcall", "resize", ("index", F("adj_"), it.var))
       ok_body = isinstance(b, tuple) and b[:3] == want and len(b) == 5 and \
           uncast(b[3]) == F("size_") and _is_int(b[4], 0)
-      ok_bound = sc.all_rows(it.bound)
+      ok_bound = sc.all_rows(it.bound) and sc.from_zero(it, "add_node row loop")
       ctx.check(ok_bound, "S2:row-loop-bound", RC, it.line,
-                f"the loop resizing rows runs to {it.bound}; every row i < "
-                "num_nodes_ must be resized", {"bound": str(it.bound)})
+                f"the loop resizing rows runs over [{getattr(it, 'lo', 0)}, "
+                f"{it.bound}); every row 0 <= i < num_nodes_ must be resized",
+                {"first": str(getattr(it, "lo", None)), "bound": str(it.bound)})
       ctx.check(ok_body, "S2:row-resize", RC, body[0].line,
                 f"row resize is {b}; expected adj_[i].resize(size_, 0)",
                 {"stmt": str(b)})
@@ -346,11 +499,13 @@ def r9_1(ctx):
             "order", {"seen": seen, "order_ok": order_ok})
   # S3 add_connection -------------------------------------------------------
   fn = sc.add_conn
-  if len(fn.params) != 2:
-    raise AnalysisError("add_connection does not take two parameters")
+  if len(fn.params) < 2:
+    raise AnalysisError("add_connection does not take (src, dst)")
+  # further parameters (hints) have no role in the schema: wherever one is
+  # used in a matched position the match fails
   src = ("var", fn.params[0].get("name"), fn.params[0]["id"])
   dst = ("var", fn.params[1].get("name"), fn.params[1]["id"])
-  if {fn.params[0]["id"], fn.params[1]["id"]} & sym.assigned(fn):
+  if {p["id"] for p in fn.params} & sym.assigned(fn):
     raise AnalysisError("add_connection: a parameter is reassigned")
 
   def single(items, kind, what):
@@ -369,9 +524,13 @@ def r9_1(ctx):
   items = sym.flatten(inner(fn.body), {}, fn)
   outer = single(items, "loop", "row loop")
   i = outer.var
-  ctx.check(sc.all_rows(outer.bound), "S3:row-loop-bound", RC, outer.line,
-            f"the outer loop runs to {outer.bound}; every row i < num_nodes_ must be "
-            "considered", {"bound": str(outer.bound)})
+  ctx.check(sc.all_rows(outer.bound) and sc.from_zero(outer, "add_connection row loop"),
+            "S3:row-loop-bound", RC, outer.line,
+            f"the outer loop runs over [{getattr(outer, 'lo', 0)}, {outer.bound}); "
+            "every row 0 <= i < num_nodes_ must be considered whatever the "
+            "arguments and the auxiliary state are: any row may reach src",
+            {"first": str(getattr(outer, "lo", None)), "bound": str(outer.bound),
+             "extra_params": [p.get("name") for p in fn.params[2:]]})
   ifs = single(outer.body, "if", "single guarded block of the row loop")
   if ifs.orelse:
     raise AnalysisError("add_connection: outer loop body is not a single guarded block")
@@ -384,9 +543,14 @@ def r9_1(ctx):
             {"guard": str(g)})
   inner_loop = single(ifs.body, "loop", "bucket loop")
   j = inner_loop.var
-  ctx.check(inner_loop.bound == F("size_"), "S3:bucket-loop-bound", RC, inner_loop.line,
-            f"the inner loop runs to {inner_loop.bound}; every bucket j < size_ must be "
-            "merged", {"bound": str(inner_loop.bound)})
+  ctx.check(sc.all_buckets(inner_loop.bound) and
+            sc.from_zero(inner_loop, "add_connection bucket loop"),
+            "S3:bucket-loop-bound", RC, inner_loop.line,
+            f"the inner loop runs over [{getattr(inner_loop, 'lo', 0)}, "
+            f"{inner_loop.bound}); every bucket 0 <= j < size_ must be merged "
+            "(a range taken from an argument or from auxiliary state is not the "
+            "width of the row)",
+            {"first": str(getattr(inner_loop, "lo", None)), "bound": str(inner_loop.bound)})
   upd = single(inner_loop.body, "expr", "single statement of the bucket loop")
   u = upd.term
   is_or = isinstance(u, tuple) and len(u) == 3 and (
@@ -601,6 +765,9 @@ def r9_3(ctx):
   if len(calls) != 1:
     raise AnalysisError("ConnectTo: add_connection call not found")
   a = _role_args(ix, calls[0], ct)
+  if len(a) > 2 and len(sc.add_conn.params) == len(a):
+    # further arguments have no role (R9.1 S3 rejects any use of them)
+    a = a[:2]
   _params_fixed(ct, "ConnectTo")
   writer = None
   if a == [ID(p), ID(("this",))]:
@@ -912,4 +1079,62 @@ VARIANTS = [
      "old": _CANHAVE_LOOP, "new": _CANHAVE_ANY_OF.replace("is_reachable(this->id(), origin->where->id())", "is_reachable(origin->where->id(), this->id())")},
     {"name": "twin-any_of-lambda-query", "rule": "R9.3", "file": _tg("typegraph.cc"), "expect": "silent",
      "old": _CANHAVE_LOOP, "new": _CANHAVE_ANY_OF},
+]
+
+# -- round 4: whole-range obligations (row loop / bucket loop start at 0 and end at
+# the matrix dimension whatever the arguments and the auxiliary state are) ----------
+_ROW_LOOP = "  std::int64_t* row_dst = adj_[dst].data();\n  for (int i = 0; i < num_nodes_; i++) {"
+_H_FIELDS = "  std::size_t num_nodes_;  // == adj_.size() == adj_[0].size()"
+VARIANTS += [
+    {"name": "seeded-C09-r4m2-first-row-hint", "rule": "R9.1", "patch": "seeded/C09-r4m2/patch.diff", "expect": "fire"},
+    {"name": "seeded-C09-r4m1-row-high-water-mark", "rule": "R9.1", "patch": "seeded/C09-r4m1/patch.diff", "expect": "fire"},
+    {"name": "row-loop-starts-at-dst", "rule": "R9.1", "file": _tg("reachable.cc"), "expect": "fire",
+     "old": _ROW_LOOP, "new": _ROW_LOOP.replace("int i = 0", "int i = dst")},
+    {"name": "row-loop-starts-at-1", "rule": "R9.1", "file": _tg("reachable.cc"), "expect": "fire",
+     "old": _ROW_LOOP, "new": _ROW_LOOP.replace("int i = 0", "int i = 1")},
+    {"name": "row-loop-starts-at-hoisted-min", "rule": "R9.1", "file": _tg("reachable.cc"), "expect": "fire",
+     "old": _ROW_LOOP, "new": "  const int start = src < dst ? src : dst;\n" + _ROW_LOOP.replace("int i = 0", "int i = start")},
+    {"name": "bucket-loop-starts-at-src-word", "rule": "R9.1", "file": _tg("reachable.cc"), "expect": "fire",
+     "old": "      for (int j = 0; j < size_; j++) {", "new": "      for (int j = src_pos; j < size_; j++) {"},
+    {"name": "bucket-loop-ends-at-src-word", "rule": "R9.1", "file": _tg("reachable.cc"), "expect": "fire",
+     "old": "      for (int j = 0; j < size_; j++) {", "new": "      for (int j = 0; j <= src_pos; j++) {"},
+    {"name": "add_node-widens-only-rows-from-hint", "rule": "R9.1", "file": _tg("reachable.cc"), "expect": "fire",
+     "old": "  for (int i = 0; i < num_nodes_; i++) {\n    adj_[i].resize(size_, 0);",
+     "new": "  for (int i = node & ~63; i < num_nodes_; i++) {\n    adj_[i].resize(size_, 0);"},
+    {"name": "bucket-loop-bounded-by-aux-counter", "rule": "R9.1", "expect": "fire",
+     "edits": [(_tg("reachable.h"), _H_FIELDS, "  std::size_t used_words_ = 0;\n" + _H_FIELDS),
+               (_tg("reachable.cc"), "  adj_[node][node / 64] = _node_bit(node);",
+                "  used_words_ = node / 64 + 1;\n  adj_[node][node / 64] = _node_bit(node);"),
+               (_tg("reachable.cc"), "      for (int j = 0; j < size_; j++) {", "      for (int j = 0; j < used_words_; j++) {")]},
+    {"name": "row-loop-bounded-by-aux-live-rows", "rule": "R9.1", "expect": "fire",
+     "edits": [(_tg("reachable.h"), _H_FIELDS, "  std::size_t live_rows_ = 0;\n" + _H_FIELDS),
+               (_tg("reachable.cc"), _ROW_LOOP,
+                "  if (live_rows_ <= src) live_rows_ = src + 1;\n" + _ROW_LOOP.replace("i < num_nodes_", "i < live_rows_"))]},
+    {"name": "guard-also-tests-aux-done-flag", "rule": "R9.1", "expect": "fire",
+     "edits": [(_tg("reachable.h"), _H_FIELDS, "  std::vector<char> done_;\n" + _H_FIELDS),
+               (_tg("reachable.cc"), "  adj_[node][node / 64] = _node_bit(node);",
+                "  done_.push_back(0);\n  adj_[node][node / 64] = _node_bit(node);"),
+               (_tg("reachable.cc"), "    if (adj_[i][src_pos] & src_bit) {", "    if ((adj_[i][src_pos] & src_bit) && !done_[i]) {")]},
+    {"name": "twin-unused-hint-parameter", "rule": "R9.1", "expect": "silent",
+     "edits": [(_tg("reachable.h"), "  void add_connection(int src, int dst);", "  void add_connection(int src, int dst, int hint = 0);"),
+               (_tg("reachable.cc"), "void ReachabilityAnalyzer::add_connection(const int src, const int dst) {",
+                "void ReachabilityAnalyzer::add_connection(const int src, const int dst,\n                                          const int /*hint*/) {"),
+               (_tg("typegraph.cc"), "add_connection(node->id(), this->id());", "add_connection(node->id(), this->id(), 0);")]},
+    {"name": "twin-aux-edge-counter-never-read", "rule": "R9.1", "expect": "silent",
+     "edits": [(_tg("reachable.h"), _H_FIELDS, "  std::size_t num_edges_ = 0;\n  std::vector<int> first_word_;\n" + _H_FIELDS),
+               (_tg("reachable.cc"), "  adj_[node][node / 64] = _node_bit(node);",
+                "  first_word_.push_back(node / 64);\n  adj_[node][node / 64] = _node_bit(node);"),
+               (_tg("reachable.cc"), _ROW_LOOP, "  ++num_edges_;\n  if (first_word_[src] > first_word_[dst]) {\n    first_word_[src] = first_word_[dst];\n  }\n" + _ROW_LOOP)]},
+    {"name": "twin-loops-ne-and-le-and-row-size", "rule": "R9.1", "expect": "silent",
+     "edits": [(_tg("reachable.cc"), _ROW_LOOP, _ROW_LOOP.replace("i < num_nodes_; i++", "i != adj_.size(); ++i")),
+               (_tg("reachable.cc"), "      for (int j = 0; j < size_; j++) {", "      for (std::size_t j = 0; j <= size_ - 1; j += 1) {")]},
+    {"name": "twin-bucket-loop-to-row-size", "rule": "R9.1", "file": _tg("reachable.cc"), "expect": "silent",
+     "old": "      for (int j = 0; j < size_; j++) {", "new": "      for (std::size_t j = 0; j < adj_[dst].size(); j++) {"},
+    {"name": "bucket-loop-index-skips-inside-body", "rule": "R9.1", "file": _tg("reachable.cc"), "expect": "error",
+     "old": "        row_i[j] |= row_dst[j];  // if dst is connected to j, connect i and j\n",
+     "new": "        row_i[j] |= row_dst[j];\n        j++;\n"},
+    {"name": "row-loop-start-from-opaque-call", "rule": "R9.1", "file": _tg("reachable.cc"), "expect": "error",
+     "old": _ROW_LOOP, "new": _ROW_LOOP.replace("int i = 0", "int i = std::min(0, dst)")},
+    {"name": "matrix-snapshot-bound-still-refused", "rule": "R9.1", "file": _tg("reachable.cc"), "expect": "error",
+     "old": _ROW_LOOP, "new": "  const std::size_t n = num_nodes_;\n" + _ROW_LOOP.replace("i < num_nodes_", "i < n")},
 ]
